@@ -513,6 +513,17 @@ fn corrupt(rng: &mut Rng, d: &mut gen::DictSrc) -> String {
             bytes = b;
             label = "csv-structural-rows";
         }
+        14 if which == 1 && bigram_file == 0 => {
+            // a body row whose one id is valid and whose other id is near the width of usize (the index `left * num_right + right`
+            // must not be formed before both ids are checked)
+            let huge = *rng.pick(&["9223372036854775808", "18446744073709551615", "4611686018427387904", "6148914691236517206", "18446744073709551616"]);
+            let row = if rng.chance(1, 2) { format!("{} {huge} 5\n", rng.below(nr.max(1))) } else { format!("{huge} {} 5\n", rng.below(nl.max(1))) };
+            if bytes.last().map_or(false, |b| *b != b'\n') {
+                bytes.push(b'\n');
+            }
+            bytes.extend_from_slice(row.as_bytes());
+            label = "matrix-row-id-near-usize";
+        }
         13 if which == 2 => {
             let extra = *rng.pick(&[
                 "BIG 0 0 16\n", "BIG 1 1 65535\n", "0x0041 DEFAULT UNDEFINED\n", "0x0041 #nothing\n", "0x0041\n",
